@@ -46,9 +46,12 @@ let () =
         let misc = if present = 0 then None else Some { mi_flags1 = f1; mi_pid = pid; mi_ctime = ct } in
         expect "L";
         let present = int_of_string (next ()) in
-        let kind = int_of_string (next ()) in let lpid = nz () in
-        (* the text of /proc/self/status is not modelled: kind 0 carries the pid, the others parse to 0 *)
-        let status = if present = 0 then None else Some (if kind = 0 then lpid else z_of_int 0) in
+        let _kind = next () in let _lpid = next () in
+        (* the bytes of the /proc/self/status stream, hex ("-" = empty); the model parses them (status_pid) *)
+        let hex = next () in
+        let text = if hex = "-" then [] else
+          List.init (String.length hex / 2) (fun i -> z_of_int (int_of_string ("0x" ^ String.sub hex (2 * i) 2))) in
+        let status = if present = 0 then None else Some text in
         expect "MOD";
         let m = int_of_string (next ()) in
         let mods = List.init m (fun _ -> let b = nz () in let s = nz () in (b, s)) in
@@ -59,12 +62,13 @@ let () =
         let r = int_of_string (next ()) in
         let mems = List.init r (fun _ -> let b = nz () in let s = nz () in (b, s)) in
         expect "LK";
+        (* enumeration membership is no longer handed over: the model uses the tables regenerated from the source (gen_lk) *)
         let q = int_of_string (next ()) in
-        let tbl = List.init q (fun _ -> let en = nz () in let v = nz () in (en, v)) in
+        let _ = List.init q (fun _ -> let en = nz () in let v = nz () in (en, v)) in
         let d = { d_platform = platform; d_arch = arch; d_time = time; d_threads = threads; d_names = names;
-                  d_exc = exc; d_bp = bp; d_misc = misc; d_status_pid = status; d_modules = mods;
+                  d_exc = exc; d_bp = bp; d_misc = misc; d_status = status; d_modules = mods;
                   d_unloaded = unl; d_mems = mems } in
-        let o = run_case Debug d tbl in
+        let o = run_case Debug d in
         let th = List.map (fun t ->
           let (ip, sp) = match t.to_ctx with Some ((_, ip), sp) -> (string_of_z ip, string_of_z sp) | None -> ("-", "-") in
           let unl = match t.to_unloaded with
